@@ -179,6 +179,32 @@ func (e *env) mintTok(ts *TokSpec, jtis map[string]string) *minted {
 		default:
 			m.idr = "k" + c.X(sha256hex("aws/awst."+inst))
 		}
+	case "x5c":
+		path := map[string]string{"": "/1.0/sign", "sign": "/1.0/sign", "revoke": "/1.0/revoke", "sshsign": "/1.0/ssh/sign"}[ts.Aud]
+		claims["iss"] = "x5c"
+		claims["aud"] = "https://ca.verif.test" + path + "#x5c/x5c"
+		claims["nbf"], claims["exp"] = now.Add(-time.Minute).Unix(), exp.Unix()
+		claims["sans"] = []string{claims["sub"].(string)}
+		if ts.Aud == "sshsign" {
+			claims["step"] = map[string]any{"ssh": map[string]any{"certType": "host", "keyID": claims["sub"], "principals": []string{claims["sub"].(string)}}}
+		}
+		key := any(e.x5cKey)
+		switch ts.Defect {
+		case "badsig":
+			key = e.jwk2.Key // the chain is fine, the signature is not the leaf's
+		case "aud":
+			claims["aud"] = "https://other.verif.test" + path + "#x5c/x5c"
+			m.lookupOK = false
+		case "kid":
+			claims["aud"] = "https://ca.verif.test" + path + "#x5c/nosuch"
+			m.lookupOK = false
+		}
+		m.str = mintHdr(key, "ES256", map[string]any{"x5c": e.x5cChain}, claims)
+		good := ts.Defect == "" && (ts.NoIat || ts.IatOff < 3000)
+		m.valid["sign"] = good && ts.Aud != "revoke"
+		m.valid["revoke"] = good && ts.Aud == "revoke"
+		m.valid["sshsign"] = good && ts.Aud == "sshsign"
+		m.idr = "k" + c.X(jti)
 	case "sshpop":
 		aud := ts.Aud
 		if aud != "sshrenew" && aud != "sshrekey" && aud != "sshrevoke" {
@@ -627,6 +653,12 @@ func cornerHists() []*Hist {
 			Reqs: []ReqSpec{{0, 0, "sign", false}, {0, 0, "sign", false}, {1, 0, "sign", false}, {2, 0, "sign", false}, {3, 0, "sign", false}, {3, 0, "sign", false},
 				{4, 0, "sign", false}, {5, 0, "sign", false}, {6, 0, "sign", false}, {6, 0, "sign", false}, {7, 0, "sign", false}, {6, 1, "sign", false}},
 			Sched: seqSched(12)})
+		// X5C through Authorize: the jti is the id; sign, revoke and ssh sign burn it; replayed, across a restart, a shared jti with a JWK token
+		hs = append(hs, &Hist{DB: dbm, Toks: []TokSpec{{Prov: "x5c", JTI: "r", Aud: "sign"}, {Prov: "x5c", JTI: "r", Aud: "revoke"}, {Prov: "x5c", JTI: "r", Aud: "sshsign"}, {Prov: "x5c", JTI: "-", Aud: "sign"},
+			{Prov: "x5c", JTI: "q", Aud: "sign"}, {Prov: "jwk", JTI: "q", Aud: "sign"}, {Prov: "x5c", JTI: "r", Aud: "sign", Defect: "badsig"}},
+			Reqs: []ReqSpec{{0, 0, "sign", false}, {0, 0, "sign", false}, {1, 0, "revoke", false}, {1, 0, "revoke", false}, {2, 0, "sshsign", false}, {2, 0, "sshsign", false}, {3, 0, "sign", false}, {3, 1, "sign", false},
+				{4, 0, "sign", false}, {5, 0, "sign", false}, {6, 0, "sign", false}, {6, 0, "sign", false}, {0, 0, "sign", false}, {3, 0, "sign", false}},
+			Sched: append(append(seqSched(12), -1), 12, 12, 12, 13, 13, 13)})
 		// AWS through Authorize (instance identity documents signed by the harness's own key, iidRoots): with trust on first use one
 		// certificate per instance; without, per token string; a document the signature does not cover has no id and is refused
 		hs = append(hs, &Hist{DB: dbm, Toks: []TokSpec{{Prov: "awst", JTI: "i1"}, {Prov: "awst", JTI: "i1"}, {Prov: "awst", JTI: "i2"}, {Prov: "awsr", JTI: "i1"}, {Prov: "awsr", JTI: "i1"},
@@ -658,11 +690,12 @@ func cornerHists() []*Hist {
 	// token is single-use through the migrated provisioners, also after the restart that loads them from the database; the admin token of
 	// the super admin is authorized once (without enableAdmin it is recorded and then refused: no admin exists)
 	hs = append(hs, &Hist{DB: true, Admin: true, Toks: []TokSpec{{Prov: "admintok", JTI: "r"}, {Prov: "admintok", JTI: "-"}, good, {Prov: "oidc", JTI: "r"}, {Prov: "k8s", JTI: "r"},
-		{Prov: "sshpop", JTI: "r", Aud: "sshrenew"}, {Prov: "renewtok", JTI: "r"}, {Prov: "jwk2", JTI: "r", Aud: "sign"}},
+		{Prov: "sshpop", JTI: "r", Aud: "sshrenew"}, {Prov: "renewtok", JTI: "r"}, {Prov: "jwk2", JTI: "r", Aud: "sign"}, {Prov: "x5c", JTI: "r", Aud: "sign"}},
 		Reqs: []ReqSpec{{0, 0, "admin", false}, {0, 0, "admin", false}, {1, 0, "admin", false}, {1, 1, "admin", false}, {2, 0, "sign", false}, {2, 0, "sign", false}, {3, 0, "sign", false}, {3, 0, "sign", false},
 			{4, 0, "sign", false}, {4, 0, "sign", false}, {5, 0, "sshrenew", false}, {5, 0, "sshrenew", false}, {6, 0, "renewtoken", false}, {6, 0, "renewtoken", false}, {7, 0, "sign", false},
-			{0, 0, "admin", false}, {2, 0, "sign", false}, {7, 0, "sign", false}, {6, 0, "renewtoken", false}},
-		Sched: append(append(seqSched(15), -1), 15, 15, 15, 16, 16, 16, 17, 17, 17, 18, 18, 18)})
+			{8, 0, "sign", false}, {8, 0, "sign", false},
+			{0, 0, "admin", false}, {2, 0, "sign", false}, {7, 0, "sign", false}, {6, 0, "renewtoken", false}, {8, 0, "sign", false}},
+		Sched: append(append(seqSched(17), -1), 17, 17, 17, 18, 18, 18, 19, 19, 19, 20, 20, 20, 21, 21, 21)})
 	for _, h := range hs {
 		for i := range h.Reqs {
 			if h.Reqs[i].Method == "signid" {
@@ -680,7 +713,7 @@ func genHist(r *c.Rng) *Hist {
 		ts := TokSpec{Prov: "jwk", JTI: "r", Aud: "sign"}
 		switch r.Intn(16) {
 		case 0:
-			ts.Prov = "jwk2"
+			ts.Prov = c.Pick(r, []string{"jwk2", "x5c", "x5c"})
 		case 1:
 			ts.Prov = "k8s"
 		case 2, 3:
